@@ -133,7 +133,7 @@ pub fn class_bears_on(class: &str, property: &str) -> bool {
             c,
             "option-rejected" | "panic" | "abort" | "illegal-bestmove" | "missing-readyok" | "missing-bestmove" | "deadlock" | "engine-exit" | "options-not-advertised" | "stop-not-honoured" | "command-stuck"
         ),
-        "C14" => matches!(c, "limit-hard-exceeds-half" | "limit-soft-exceeds-hard" | "limit-movetime-not-as-given" | "flag-fall" | "limits-missing" | "limit-ignored"),
+        "C14" => matches!(c, "limit-hard-exceeds-half" | "limit-soft-exceeds-hard" | "limit-movetime-not-as-given" | "flag-fall" | "limits-missing" | "limit-ignored" | "panic" | "abort" | "missing-bestmove" | "deadlock"),
         "C19" => c.starts_with("tt-") || matches!(c, "panic" | "abort"),
         _ => false,
     }
